@@ -37,6 +37,9 @@ def cases(tier, seed):
     # the extrusion amount given as every kind of real scalar a script may compute
     for amount in ("int", "np.float64", "np.int64", "np.float32", "np.array0d"):
         out.append({"what": "stack", "kind": "extruded", "n": 2, "m": 1, "tiers": 2, "amount": amount})
+    # ... or as a vector (not only along the sketch's normal) or a negative distance
+    for amount in ("vec_up", "vec_down", "vec_skew", "vec_np", "neg_float"):
+        out.append({"what": "stack", "kind": "extruded", "n": 2, "m": 2, "tiers": 3, "amount": amount})
     frames = sorted({0, 4, 1 + seed % 7}) if tier == "quick" else list(range(len(FRAMES)))
     for fr in frames:
         for shape in ("Cylinder", "SemiCylinder", "Frustum", "Elbow", "ExtrudedRing", "RevolvedRing", "Hemisphere", "OneCoreDisk", "FourCoreDisk", "HalfDisk", "Oval", "WrappedDisk", "QuarterDisk", "QuarterSplineDisk", "HalfSplineDisk", "SplineDisk", "SplineDisk_circular"):
@@ -65,9 +68,16 @@ def make_stack(kind, n, m, tiers, amount="float"):
 
     base = cb.Grid(P1, P2, n, m)
     if kind == "extruded":
-        two = {"float": 2.0, "int": 2, "np.float64": np.float64(2.0), "np.int64": np.int64(2), "np.float32": np.float32(2.0), "np.array0d": np.array(2.0)}[amount]
+        vectors = {"vec_up": [0, 0, 2.0], "vec_down": [0, 0, -2.0], "vec_skew": [0.5, -0.3, 2.0], "vec_np": np.array([0.2, 0.0, -1.5]), "neg_float": -2.0}
+        if amount in vectors:
+            # the whole extrusion as a vector (or a negative distance): tier k lies k / tiers of the way along it
+            two = vectors[amount]
+            whole = np.array([0, 0, two]) if amount == "neg_float" else np.asarray(two, dtype=float)
+        else:
+            two = {"float": 2.0, "int": 2, "np.float64": np.float64(2.0), "np.int64": np.int64(2), "np.float32": np.float32(2.0), "np.array0d": np.array(2.0)}[amount]
+            whole = np.array([0, 0, 2.0])
         stack = cb.ExtrudedStack(base, two, tiers)
-        maps = [lambda p, k=k: p + np.array([0, 0, 2.0 / tiers * k]) for k in range(tiers + 1)]
+        maps = [lambda p, k=k: p + whole / tiers * k for k in range(tiers + 1)]
     elif kind == "revolved":
         total = 1.2
         stack = cb.RevolvedStack(base, total, [1, 0, 0], [0, 0, 0], tiers)
